@@ -33,28 +33,28 @@ type CaseViol struct {
 
 type Batch struct {
 	From, Count int
-	Ran         int                `json:"ran"`
-	Programs    int                `json:"programs"`
-	Viols       []CaseViol         `json:"viols,omitempty"`
-	Incon       []string           `json:"incon,omitempty"`
-	Calls       int64              `json:"calls"`
-	ArgEvents   int64              `json:"arg_events"`
-	EmitEvents  int64              `json:"emit_events"`
-	SchedStates int64              `json:"sched_states"`
-	ByTag       map[string]int     `json:"by_tag"`
-	NonTrivial  map[string]int     `json:"nontrivial"`
+	Ran         int                 `json:"ran"`
+	Programs    int                 `json:"programs"`
+	Viols       []CaseViol          `json:"viols,omitempty"`
+	Incon       []string            `json:"incon,omitempty"`
+	Calls       int64               `json:"calls"`
+	ArgEvents   int64               `json:"arg_events"`
+	EmitEvents  int64               `json:"emit_events"`
+	SchedStates int64               `json:"sched_states"`
+	ByTag       map[string]int      `json:"by_tag"`
+	NonTrivial  map[string]int      `json:"nontrivial"`
 	Distinct    map[string][]uint64 `json:"distinct"` // per property: hashes of distinct non-trivial cases
-	Features    map[string]int     `json:"features"`
-	MaxHWM      map[int]int        `json:"max_hwm"`
-	Samples     []json.RawMessage  `json:"samples,omitempty"`
-	Abandoned   int                `json:"abandoned"`
-	Concurrent  int                `json:"concurrent_execs"`
+	Features    map[string]int      `json:"features"`
+	MaxHWM      map[int]int         `json:"max_hwm"`
+	Samples     []json.RawMessage   `json:"samples,omitempty"`
+	Abandoned   int                 `json:"abandoned"`
+	Concurrent  int                 `json:"concurrent_execs"`
 }
 
 type result struct {
-	x     *rt.Exec
-	viols []Viol
-	leak  []mon.G
+	x         *rt.Exec
+	viols     []Viol
+	leak      []mon.G
 	leakIncon bool
 }
 
@@ -410,7 +410,7 @@ outer:
 							why = fmt.Sprintf(" (the provider %d of another input of task %d is held until predicate %d is entered: the predicate must start as soon as its own inputs are available)", sc.PredGate[2], sc.PredGate[0], sc.PredGate[1])
 						}
 						b.Viols = append(b.Viols, CaseViol{Prog: e.Name, Tag: tag, Idx: k, Props: props,
-							Why: "stuck"+why+": the directive has not returned, no harness event for 1.5 s and every goroutine is blocked in the same place in three consecutive dumps", Scenario: sc, Features: e.Prog.Features, Dump: dump})
+							Why: "stuck" + why + ": the directive has not returned, no harness event for 1.5 s and every goroutine is blocked in the same place in three consecutive dumps", Scenario: sc, Features: e.Prog.Features, Dump: dump})
 					case "spin":
 						b.Viols = append(b.Viols, CaseViol{Prog: e.Name, Tag: tag, Idx: k, Props: []string{"C05"},
 							Why: "no progress for 15 s with no user function running and scheduler goroutines runnable", Scenario: sc, Features: e.Prog.Features, Dump: dump})
